@@ -20,6 +20,7 @@ type Ctx struct {
 	P    *load.Program
 	R    *report.Report
 	Tier string
+	Mech []*ssa.Function // functions resolved as anchors of the property's mechanisms
 }
 
 // Property is a registered property check.
@@ -84,7 +85,18 @@ func (c *Ctx) fn(pkg, name string) *ssa.Function {
 		return nil
 	}
 	c.R.Analysed(load.FuncName(f))
+	c.mech(f)
 	return f
+}
+
+// mech records a function the property's mechanism lives in.
+func (c *Ctx) mech(f *ssa.Function) {
+	for _, g := range c.Mech {
+		if g == f {
+			return
+		}
+	}
+	c.Mech = append(c.Mech, f)
 }
 
 // method resolves a method anchor.
@@ -95,6 +107,7 @@ func (c *Ctx) method(pkg, typ, name string) *ssa.Function {
 		return nil
 	}
 	c.R.Analysed(load.FuncName(f))
+	c.mech(f)
 	return f
 }
 
@@ -227,7 +240,17 @@ func extractOf(v ssa.Value, idx int) ssa.Value {
 // leaves resolves phis: the non-phi values v can stand for, leaving out the
 // zero constants (nil, 0, "", false) that error paths put into the result
 // temporaries of an inlined helper.
-func leaves(v ssa.Value) []ssa.Value {
+func leaves(v ssa.Value) []ssa.Value { return leavesUpTo(v, nil) }
+
+// carries reports whether v is stop itself or a join of stop with the zero
+// values of error paths: the value a result temporary hands on.
+func carries(v, stop ssa.Value) bool {
+	l := leavesUpTo(v, stop)
+	return len(l) == 1 && l[0] == stop
+}
+
+// leavesUpTo is leaves that does not look inside the phi stop.
+func leavesUpTo(v ssa.Value, stop ssa.Value) []ssa.Value {
 	var out []ssa.Value
 	seen := map[ssa.Value]bool{}
 	var walk func(x ssa.Value)
@@ -236,6 +259,10 @@ func leaves(v ssa.Value) []ssa.Value {
 			return
 		}
 		seen[x] = true
+		if stop != nil && x == stop {
+			out = append(out, x)
+			return
+		}
 		switch y := x.(type) {
 		case *ssa.Phi:
 			for _, e := range y.Edges {
